@@ -69,6 +69,8 @@ fn ro_mutators_on_bucket(b: &Bucket, mb: &MBucket, probes: &[Vec<u8>], out: &mut
     }
 }
 
+static DAMAGED_OPENS: std::sync::atomic::AtomicU64 = std::sync::atomic::AtomicU64::new(0);
+
 /// (d): build the committed state of `h`, then hammer a read-only transaction.
 fn ro_case(h: &History, path: &std::path::Path, calls: &mut u64) -> Result<Vec<(String, String)>, String> {
     let mut viol = Vec::new();
@@ -100,6 +102,57 @@ fn ro_case(h: &History, path: &std::path::Path, calls: &mut u64) -> Result<Vec<(
             ));
             break;
         }
+    }
+    // ... also when the existing database is not in perfect shape: one of its two header pages unusable, as a
+    // torn header write leaves it (seeded change C06-m "repaired" the bad slot from the good one while opening).
+    // What such a file must *show* is C12's business; here only the bytes count: open, read, close - unchanged.
+    {
+        let orig = std::fs::read(path).map_err(|e| e.to_string())?;
+        let ps = h.pagesize as usize;
+        let dmg_path = path.with_extension("dmg");
+        if orig.len() >= 2 * ps {
+            for slot in 0..2usize {
+                for kind in 0..3usize {
+                    let mut img = orig.clone();
+                    let base = slot * ps;
+                    let what = match kind {
+                        0 => {
+                            img[base + 96] ^= 0x5a; // a byte of the checksum
+                            "a damaged checksum"
+                        }
+                        1 => {
+                            for b in &mut img[base..base + 512.min(ps)] {
+                                *b = 0;
+                            }
+                            "a zeroed first sector"
+                        }
+                        _ => {
+                            img[base + 32 + 56] ^= 0x01; // a byte of the transaction id
+                            "a changed transaction id"
+                        }
+                    };
+                    std::fs::write(&dmg_path, &img).map_err(|e| e.to_string())?;
+                    let before_d = util::fingerprint(&img);
+                    let _ = util::catch(|| {
+                        if let Ok(db) = exec::reopen_db(&dmg_path, h, 0) {
+                            if let Ok(tx) = db.tx(false) {
+                                let _ = exec::dump_tx(&tx);
+                            }
+                            let _ = db.check();
+                        }
+                    });
+                    DAMAGED_OPENS.fetch_add(1, std::sync::atomic::Ordering::Relaxed);
+                    let after_d = util::fingerprint(&std::fs::read(&dmg_path).map_err(|e| e.to_string())?);
+                    if after_d != before_d {
+                        viol.push((
+                            "open:file-bytes-changed:one-header-unusable".into(),
+                            format!("opening, reading and closing a database whose header page {} has {} changed the file's bytes", slot, what),
+                        ));
+                    }
+                }
+            }
+        }
+        let _ = std::fs::remove_file(&dmg_path);
     }
     let db = exec::open_db(path, h).map_err(|e| e.to_string())?;
     let st0 = db.verif_state();
@@ -675,7 +728,7 @@ pub fn run(ctx: &Ctx) -> Shard {
                 for (gi, big) in [1usize << 20, (9 << 20) + 4321].iter().enumerate() {
                     let small = |n: u64| TxScript { ops: vec![Op::TxGetOrCreate { k: K::lit(b"g"), how: How::Slice }, Op::Put { h: 0, k: K::lit(format!("s{}", n).as_bytes()), v: V { tag: 7000 + n, len: 200 }, how: How::Slice, vhow: How::Slice }], end: End::Commit, reopen: false };
                     let grow = TxScript { ops: vec![Op::TxGetOrCreate { k: K::lit(b"g"), how: How::Slice }, Op::Put { h: 0, k: K::lit(b"big"), v: V { tag: 7100 + gi as u64, len: *big }, how: How::Slice, vhow: How::Slice }, Op::Put { h: 0, k: K::lit(b"s0"), v: V { tag: 7200, len: 100 }, how: How::Slice, vhow: How::Slice }], end: End::Commit, reopen: false };
-                    let gh = History { pagesize: if gi == 0 { 1024 } else { 4096 }, num_pages: 4 + 4 * gi, strict: false, populate: false, txs: vec![small(0), small(1), grow], origin: "directed-growing".into() };
+                    let gh = History { pagesize: if gi == 0 { 1024 } else { 4096 }, num_pages: 4 + 4 * gi, strict: false, populate: false, txs: vec![small(0), small(1), grow], origin: "directed-growing".into(), pins: vec![] };
                     let p6 = scratch.fresh("h");
                     let mut v: Vec<(String, String)> = Vec::new();
                     match failed_commit_case(&gh, &p6, vio, &mut v) {
@@ -719,6 +772,7 @@ pub fn run(ctx: &Ctx) -> Shard {
     shard.count("twin_runs", twins);
     shard.count("twin_commits_compared", twin_commits);
     shard.count("read_only_mutator_calls", ro_calls);
+    shard.count("opens_of_a_database_with_one_unusable_header_page(bytes compared)", DAMAGED_OPENS.load(std::sync::atomic::Ordering::Relaxed));
     shard.count("commits_failed_by_injected_write_error_and_checked_for_traces", failed_commits);
     shard.count("max_ops_in_a_rolled_back_tx", rolled_back_ops_max);
     for ((op, kind), n) in &total.op_results {
